@@ -32,6 +32,7 @@ const (
 	opClean
 	opAdvance
 	opFill // macro: k gossip destinations inside one routing prefix
+	opMulti // macro: several route additions in a row
 )
 
 type op struct {
@@ -46,6 +47,7 @@ type op struct {
 	fillPfx netip.Prefix
 	fillN   int
 	fillOff int
+	sub     []op
 	name    string
 }
 
@@ -183,6 +185,12 @@ func (sc *scenario) apply(rt *m.RoutingTable, o op) []violation {
 		for i := 0; i < o.fillN; i++ {
 			e := sc.mkEntry(sc.fillOp(o, i))
 			_, _ = rt.AddRoute(e)
+		}
+		return vs
+
+	case opMulti:
+		for _, so := range o.sub {
+			_, _ = rt.AddRoute(sc.mkEntry(so))
 		}
 		return vs
 
@@ -348,6 +356,29 @@ func labelOf(a netip.Addr) m.SwitchLabel {
 	return m.SwitchLabel(b[15]&0x7f) | 1
 }
 
+// refTotals recomputes hop count and delay of a route from its hop list: every
+// hop counts at least the minimum hop delay, the sum saturates at 65534.
+func refTotals(e *m.RoutingTableEntry) (hops int, delay int) {
+	if len(e.Path.Hops) < 2 {
+		return int(e.Path.TotalHops), int(e.Path.TotalDelay)
+	}
+	hops = len(e.Path.Hops) - 1
+	if hops > 254 {
+		hops = 254
+	}
+	for _, h := range e.Path.Hops {
+		d := int(h.Delay)
+		if d < m.MinHopDelay {
+			d = m.MinHopDelay
+		}
+		delay += d
+	}
+	if delay > 65534 {
+		delay = 65534
+	}
+	return
+}
+
 // invariants evaluated in every state.
 func (sc *scenario) invariants(rt *m.RoutingTable) []violation {
 	var vs []violation
@@ -361,6 +392,9 @@ func (sc *scenario) invariants(rt *m.RoutingTable) []violation {
 	lims := map[netip.Prefix]int{}
 	for i := range es {
 		e := &es[i]
+		if h, d := refTotals(e); h != int(e.Path.TotalHops) || d != int(e.Path.TotalDelay) {
+			bad("stored-totals-wrong", "route %s is ranked with hops=%d delay=%d but its hop list gives hops=%d delay=%d", routeID(e), e.Path.TotalHops, e.Path.TotalDelay, h, d)
+		}
 		if e.Source == m.RouteSourcePeer {
 			peers[e.DstIP]++
 		} else {
@@ -393,9 +427,14 @@ func (sc *scenario) invariants(rt *m.RoutingTable) []violation {
 			if e.Source == m.RouteSourcePeer {
 				havePeer = true
 			}
-			if best == nil || int(e.Path.TotalHops) < int(best.Path.TotalHops) ||
-				(e.Path.TotalHops == best.Path.TotalHops && e.Path.TotalDelay < best.Path.TotalDelay) {
+			if best == nil {
 				best = e
+			} else {
+				eh, ed := refTotals(e)
+				bh, bd := refTotals(best)
+				if eh < bh || (eh == bh && ed < bd) {
+					best = e
+				}
 			}
 		}
 		for li, look := range []func(netip.Addr) (*m.RoutingTableEntry, bool){rt.LookupNearest, rt.LookupNearestRoute} {
@@ -412,8 +451,12 @@ func (sc *scenario) invariants(rt *m.RoutingTable) []violation {
 				bad("lookup-miss", "%s(%s) did not return an exact destination route although %d exist (got %v isDst=%v)", name, a, nonPeer[a]+peers[a], fmtRoute(got), isDst)
 			case havePeer && got.Source != m.RouteSourcePeer:
 				bad("lookup-not-peer-first", "%s(%s) returned %s although a direct-peer route exists", name, a, fmtRoute(got))
-			case !havePeer && (got.Path.TotalHops != best.Path.TotalHops || got.Path.TotalDelay != best.Path.TotalDelay):
-				bad("lookup-not-best", "%s(%s) returned hops=%d delay=%d but best is hops=%d delay=%d", name, a, got.Path.TotalHops, got.Path.TotalDelay, best.Path.TotalHops, best.Path.TotalDelay)
+			case !havePeer:
+				gh, gd := refTotals(got)
+				bh, bd := refTotals(best)
+				if gh != bh || gd != bd {
+					bad("lookup-not-best", "%s(%s) returned hops=%d delay=%d but best is hops=%d delay=%d", name, a, gh, gd, bh, bd)
+				}
 			}
 		}
 	}
@@ -737,13 +780,77 @@ func scenarios() []*scenario {
 		add(op{kind: opClean, name: "Clean"})
 		out = append(out, sc)
 	}
+	// --- scenario 9: delay sums beyond the 16-bit range (saturate, never wrap).
+	{
+		R := ip("fd10:1::1")
+		P1, P3 := ip("fd10:2::b"), ip("fd10:8::d")
+		X, Y := ip("fd10:7::7"), ip("fd10:9::9")
+		D := ip("fd10:4::1")
+		cfg := func() m.RoutingTableConfig {
+			return m.RoutingTableConfig{RouterIP: R, RoutablePrefixes: []m.RoutablePrefix{
+				{BasePrefix: m.BaseNetPrefix, RoutingBits: 12, EntryTTL: 3 * time.Hour, EntriesPerPrefix: 2},
+			}}
+		}
+		sc := &scenario{name: "delay-saturation", cfg: cfg, router: R, limitOf: limitFrom(cfg()),
+			probes: []netip.Addr{D, P1},
+			depth:  [2]int{5, 6}, maxState: [2]int{60000, 400000}}
+		add := func(o op) { sc.ops = append(sc.ops, o) }
+		for _, r := range []struct {
+			n      string
+			via    netip.Addr
+			relays []netip.Addr
+			delay  uint16
+		}{{"P1", P1, nil, 40000}, {"P3", P3, nil, 25000}, {"P1", P1, nil, 5}, {"P1+X", P1, []netip.Addr{X}, 40000}, {"P3+Y", P3, []netip.Addr{Y}, 30000}, {"P3+Y", P3, []netip.Addr{Y}, 65535}} {
+			add(op{kind: opAddGossip, dst: D, via: r.via, relays: r.relays, delay: r.delay, expires: time.Hour, name: fmt.Sprintf("Gossip(D via %s,%dms)", r.n, r.delay)})
+		}
+		add(op{kind: opClean, name: "Clean"})
+		out = append(out, sc)
+	}
+
+	// --- scenarios 10a/10b: destinations at the edges of a routing prefix (first
+	// and last address of fd10::/12; first address of the next prefix and last
+	// of the previous one), limit 1, so that the per-prefix bounds bind.
+	for _, variant := range []struct {
+		name  string
+		dests [][2]string
+		depth [2]int
+	}{
+		{"prefix-boundary-addresses(inside)", [][2]string{{"last-of-prefix", "fd1f:ffff:ffff:ffff:ffff:ffff:ffff:ffff"}, {"first-of-prefix", "fd10::"}, {"mid1", "fd14:5::1"}, {"mid2", "fd18:6::1"}}, [2]int{8, 9}},
+		{"prefix-boundary-addresses(neighbours)", [][2]string{{"last-of-previous-prefix", "fd0f:ffff:ffff:ffff:ffff:ffff:ffff:ffff"}, {"first-of-prefix", "fd10::"}, {"last-of-prefix", "fd1f:ffff:ffff:ffff:ffff:ffff:ffff:ffff"}, {"first-of-next-prefix", "fd20::"}}, [2]int{6, 8}},
+	} {
+		R := ip("fd30:1::1")
+		P1, P2, P3 := ip("fd30:2::b"), ip("fd30:3::c"), ip("fd30:8::d")
+		cfg := func() m.RoutingTableConfig {
+			return m.RoutingTableConfig{RouterIP: R, RoutablePrefixes: []m.RoutablePrefix{
+				{BasePrefix: m.BaseNetPrefix, RoutingBits: 12, EntryTTL: 3 * time.Hour, EntriesPerPrefix: 1},
+			}}
+		}
+		var probes []netip.Addr
+		for _, d := range variant.dests {
+			probes = append(probes, ip(d[1]))
+		}
+		sc := &scenario{name: variant.name, cfg: cfg, router: R, limitOf: limitFrom(cfg()),
+			probes: probes,
+			depth:  variant.depth, maxState: [2]int{60000, 400000}}
+		add := func(o op) { sc.ops = append(sc.ops, o) }
+		for _, d := range variant.dests {
+			a := ip(d[1])
+			add(op{kind: opAddGossip, dst: a, via: P1, delay: 5, expires: time.Hour, name: fmt.Sprintf("Gossip(%s via P1)", d[0])})
+			add(op{kind: opMulti, name: fmt.Sprintf("Alternatives(%s via P2, P3)", d[0]), sub: []op{
+				{kind: opAddGossip, dst: a, via: P2, delay: 7, expires: time.Hour},
+				{kind: opAddGossip, dst: a, via: P3, delay: 9, expires: time.Hour},
+			}})
+		}
+		add(op{kind: opClean, name: "Clean"})
+		out = append(out, sc)
+	}
 	return out
 }
 
 func TestC11(t *testing.T) {
 	env := kit.GetEnv()
 	rep := kit.NewReport("C11", env)
-	rep.Rule = "explicit-state BFS: every operation sequence up to the depth bound over the scenario's op alphabet (AddRoute as AddLink / as hop-less announce / as gossip with system-producible paths, RemoveNextHop, RemoveDisconnected with and without peer list, Clean, clock advances, Fill macro-ops), deduplicated on (table snapshot, clock); each execution = fresh real table + replay inside a virtual-time bubble; after the last op its post-condition and all invariants + lookups of every probe address are checked; non-trivial = resulting table holds >= 2 entries; states = distinct (snapshot, clock) per shard"
+	rep.Rule = "explicit-state BFS: every operation sequence up to the depth bound over the scenario's op alphabet (AddRoute as AddLink / as hop-less announce / as gossip with system-producible paths, RemoveNextHop, RemoveDisconnected with and without peer list, Clean, clock advances, Fill macro-ops; scenarios incl. many routes to one destination, hop delays whose sum exceeds 16 bits, destinations at the first/last address of a routing prefix), hop count and delay of every route recomputed from its hop list by the reference, deduplicated on (table snapshot, clock); each execution = fresh real table + replay inside a virtual-time bubble; after the last op its post-condition and all invariants + lookups of every probe address are checked; non-trivial = resulting table holds >= 2 entries; states = distinct (snapshot, clock) per shard"
 	rep.Assumptions = []string{
 		"routes are system-producible: peer routes as AddLink/announce build them, gossip routes with >= 1 signed relay hop (so >= 2 hops), first hop = this router, next hop = first relay",
 		"per-prefix limits are taken from the table's own configuration; 'limit' scenarios shrink EntriesPerPrefix through the public config struct, 'shipped' scenarios keep 32/64/1024 and use Fill macro-ops",
